@@ -650,6 +650,27 @@ theorem C17_scope_strings_text {x : Interner} (hx : Interner.Reachable x) {m : M
   refine ⟨sns, chain, pfx, loc, wsp, hw, htok, h1, h2, ⟨e, he, ?_⟩, hmem, hsp, ns, hn, by rw [← h3]; exact hl⟩
   rw [hloc, localName_of_get hn]
 
+/-- … and for the attributes of the element at `q`, over the same frames: an unprefixed attribute is in no
+    namespace; a prefixed one in the namespace its prefix as written resolves to over the declarations as written. -/
+theorem C17_scope_strings_text_attribute {x : Interner} (hx : Interner.Reachable x) {m : Mode} {s : Str} {p : Parsed}
+    (h : parseString m x.env s = .ok p)
+    {q : Path} {id : Nat} {ks : List Tree} (hat : p.tree.at? q = some (.node (.element id) ks)) :
+    ∃ sns chain, WellNsDoc sns ∧ NSNode.tokens.tokensList sns = dropDecls (lexMode m s).1 ∧
+      chain ≠ [] ∧ NsPath sns chain ∧ (∃ e, chain.getLast? = some e ∧ e.nameLoc = p.env.localName id) ∧
+      ∀ k ∈ ks, ∀ n v, k.value = .attribute n v →
+        ∃ pfx loc val wsp, Token.attribute pfx loc val wsp ∈ (lexMode m s).1 ∧
+          (∃ sp, p.spans.get ⟨q, .attributeName n⟩ = some sp ∧
+            sliceBytes s sp.start sp.stop = some (tokQName pfx.text loc.text)) ∧
+          ∃ ns, p.env.names[n]? = some (loc.text, ns) ∧
+            (pfx.text = [] → ns = Env.noNamespace) ∧
+            (pfx.text ≠ [] →
+              lookupStr (chainFrames chain ++ [[([], [])], [(['x', 'm', 'l'], xmlNsUri)]]) pfx.text =
+                some (p.env.namespaceStr ns)) := by
+  obtain ⟨sns, chain, hw, htok, h1, h2, h3, h4⟩ := C17_scope_frames_text hx h hat
+  refine ⟨sns, chain, hw, htok, h1, h2, h4, fun k hk n v hv => ?_⟩
+  obtain ⟨pfx, loc, val, wsp, hmem, _, hsp, ns, hn, he, hne⟩ := (C17_scope_strings hx h hat).2 k hk n v hv
+  exact ⟨pfx, loc, val, wsp, hmem, hsp, ns, hn, he, fun hp => by rw [← h3]; exact hne hp⟩
+
 /-- Non-vacuity, nearest declaration wins: `<p:a xmlns:p='u'><p:b xmlns:p='w'/><p:c/></p:a>` is accepted from
     `Xot::new()`; the frames at `p:b` are `[p ↦ w]` above `[p ↦ u]` and `p` resolves to `w` there (the name of
     the node is (`b`, `w`)); at `p:c` they are `[]` above `[p ↦ u]` and `p` resolves to `u` (name (`c`, `u`)). -/
